@@ -197,6 +197,9 @@ type vkAsk struct {
 	Packets  int
 	Latched  string
 	Settled  bool
+	// DeadlineMode: asked on the pipeline whose query timeout is a few tens of ms: a SERVFAIL without any
+	// upstream packet is then the ask's own deadline, not a cached failure (only EDE 13 identifies one).
+	DeadlineMode bool
 }
 
 func (a vkAsk) outcome() string {
@@ -223,14 +226,14 @@ func (a vkAsk) fromCache() bool {
 			return true
 		}
 	}
-	return a.Packets == 0 && a.Latched == ""
+	return a.Packets == 0 && a.Latched == "" && !a.DeadlineMode
 }
 
 func (w *vkWorld) ask(pl *h_rpipe.Pipeline, qname string, o h_rpipe.AskOpt) vkAsk {
 	before := w.sim.Count("")
 	r := pl.Ask(pl.Query(qname, dns.TypeA, true, true), "tcp", o)
 	w.c.Add("evaluations", 1)
-	a := vkAsk{Returned: r.Returned, Writes: r.Writes, Elapsed: r.Elapsed}
+	a := vkAsk{Returned: r.Returned, Writes: r.Writes, Elapsed: r.Elapsed, DeadlineMode: pl.Cfg.QueryTimeout < time.Second}
 	if r.Latched != nil {
 		a.Latched = r.Latched.Error()
 	}
@@ -559,7 +562,11 @@ func vkCases(thorough bool) []vkCase {
 		}
 	}
 	// the "three lame fast + one healthy slow" family (quick: the full 4-server space is thorough-only)
-	for _, lame := range vkAssignments(3, []string{"servfail", "refused", "garbage"}) {
+	lameKinds := []string{"servfail", "refused"}
+	if thorough {
+		lameKinds = append(lameKinds, "garbage")
+	}
+	for _, lame := range vkAssignments(3, lameKinds) {
 		for pos := 0; pos < 4; pos++ {
 			for _, h := range []string{"slow", "healthy"} {
 				beh := append([]string{}, lame[:pos]...)
@@ -672,7 +679,20 @@ func (w *vkWorld) report(cs vkCase, r vkResult) {
 			w.c.Note(fmt.Sprintf("dropped (not reproduced 3/3): %s %s: %s", class, cs, classes[class]))
 			continue
 		}
-		w.c.Violation(vkKey(cs, class), fmt.Sprintf("%s — case %s: zone z%d.t. with servers %v behaving %v (in delegation order); upstream exchanges (* = scripted): %s", msg, cs, len(cs.Beh), w.servers(len(cs.Beh)), cs.Beh, last.Path), cs)
+		desc := fmt.Sprintf("zone z%d.t. with servers %v behaving %v (in delegation order)", len(cs.Beh), w.servers(len(cs.Beh)), cs.Beh)
+		switch cs.Mode {
+		case "unreachable":
+			desc = "zone gl.t. whose only name server ns.nowhere.t. has no address anywhere (no server reachable)"
+		case "enrich":
+			desc += " for AAAA questions only (everything else is answered): only the detached IPv6 enrichment of the delegation fails"
+		case "budget":
+			desc += fmt.Sprintf("; firewall in enforce mode, budget parameter %d (>0 MaxOutboundQueries, <0 MaxInternalQueries)", cs.Param)
+		case "cancel":
+			desc += fmt.Sprintf("; the client's context is cancelled %d ms after the query was sent", cs.Param)
+		case "deadline":
+			desc += fmt.Sprintf("; query timeout %d ms", cs.Param)
+		}
+		w.c.Violation(vkKey(cs, class), fmt.Sprintf("%s — case %s: %s; upstream exchanges (* = scripted): %s", msg, cs, desc, last.Path), cs)
 	}
 }
 
